@@ -102,9 +102,10 @@ Lemma frames_do_setf W c v : In c W -> frames W (do_setf F r32 c v).
 Proof. intros I s s' E. unfold do_setf in E. injection E as <-. apply only_upd; exact I. Qed.
 Lemma frames_set_variable W c i n o : In c W -> frames W (set_variable F r32 c i n o).
 Proof.
-  intros I s s' E. unfold set_variable in E.
+  intros I s s' E. unfold set_variable in E. cbv zeta in E.
   destruct (1 <=? o).
-  - destruct (i <? length (rderiv (alloc F (s c) n o))); [|discriminate]. injection E as <-. apply only_upd; exact I.
+  - cbv zeta in E. match type of E with context [if ?b then Ok _ else Panic _] => destruct b end; [|discriminate].
+    injection E as <-. apply only_upd; exact I.
   - injection E as <-. apply only_upd; exact I.
 Qed.
 Lemma frames_set_reg W c b : In c W -> frames W (set_reg F r32 c b).
